@@ -448,3 +448,66 @@ package stats
 //@   results lo, hi
 //@   ensures [def] lo == 0 && hi == d.N1 * d.N2
 //@   assigns nothing
+
+// ---------------------------------------------------------------------
+// Normal distribution pieces used by the Mann-Whitney approximation (C03, C05)
+
+//@ spec ncdf(mu float64, sigma float64, x float64) float64 = erfc(-(x - mu) / (sigma * math.Sqrt2)) / 2
+
+//@ func NormalDist.CDF
+//@   deterministic
+//@   model real
+//@   requires n.Sigma != 0
+//@   ensures [def]   result == ncdf(n.Mu, n.Sigma, x)
+//@   ensures [range] 0 < result && result < 1
+//@   assigns nothing
+
+// ---------------------------------------------------------------------
+// Mann-Whitney U test (C01, C03, C20)
+
+//@ global MannWhitneyExactLimit symbolic
+//@ global MannWhitneyTiesExactLimit symbolic
+
+//@ spec tcsum(a []int, k int) int = k <= 0 ? 0 : tcsum(a, k-1) + (a[k-1]*a[k-1]*a[k-1] - a[k-1])
+//@ spec cnt1(a []byte, k int) int = k <= 0 ? 0 : cnt1(a, k-1) + (a[k-1] == 1 ? 1 : 0)
+
+//@ func tieCorrection
+//@   model real
+//@   ensures [def] result == tcsum(ties, len(ties))
+//@   loop 1 (tie) invariant t == tcsum(ties, _k)
+//@   assigns nothing
+
+//@ func labeledMerge
+//@   model real
+//@   requires sortedF(x1) && sortedF(x2)
+//@   ensures [len]    len(merged) == len(x1) + len(x2) && len(labels) == len(x1) + len(x2)
+//@   ensures [sorted] sortedF(merged)
+//@   ensures [labels] forall k in 0..len(labels) :: labels[k] == 1 || labels[k] == 2
+//@   ensures [fresh]  fresh(merged) && fresh(labels)
+//@   loop 1 invariant 0 <= i && i <= len(x1) && 0 <= j && j <= len(x2) && o == i + j && len(merged) == len(x1) + len(x2) && len(labels) == len(x1) + len(x2) && fresh(merged) && fresh(labels) && (forall a in 0..o, b in 0..o :: a <= b ==> merged[a] <= merged[b]) && (forall a in 0..o :: (i < len(x1) ==> merged[a] <= x1[i]) && (j < len(x2) ==> merged[a] <= x2[j])) && (forall k in 0..o :: labels[k] == 1 || labels[k] == 2)
+//@   loop 2 invariant 0 <= i && i <= len(x1) && 0 <= j && j <= len(x2) && (i == len(x1) || j == len(x2)) && o == i + j && len(merged) == len(x1) + len(x2) && len(labels) == len(x1) + len(x2) && fresh(merged) && fresh(labels) && (forall a in 0..o, b in 0..o :: a <= b ==> merged[a] <= merged[b]) && (forall a in 0..o :: (i < len(x1) ==> merged[a] <= x1[i]) && (j < len(x2) ==> merged[a] <= x2[j])) && (forall k in 0..o :: labels[k] == 1 || labels[k] == 2)
+//@   loop 3 invariant i == len(x1) && 0 <= j && j <= len(x2) && o == i + j && len(merged) == len(x1) + len(x2) && len(labels) == len(x1) + len(x2) && fresh(merged) && fresh(labels) && (forall a in 0..o, b in 0..o :: a <= b ==> merged[a] <= merged[b]) && (forall a in 0..o :: (j < len(x2) ==> merged[a] <= x2[j])) && (forall k in 0..o :: labels[k] == 1 || labels[k] == 2)
+//@   assigns nothing
+
+//@ spec mwsigma(n1 int, n2 int, tc float64) float64 =
+//@     sqrt(n1 * n2 * ((n1 + n2 + 1) - tc / ((n1 + n2) * (n1 + n2 - 1))) / 12)
+
+//@ func MannWhitneyUTest
+//@   model real
+//@   results res, err
+//@   ensures [err-size]  (len(x1) == 0 || len(x2) == 0) <==> err == ErrSampleSize
+//@   ensures [err-other] err == nil || err == ErrSampleSize || err == ErrSamplesEqual
+//@   ensures [nil-on-error] err != nil ==> res == nil
+//@   ensures [fields]    err == nil ==> res != nil && res.N1 == len(x1) && res.N2 == len(x2) && res.AltHypothesis == alt
+//@   loop 1 (i) invariant 0 <= i && i <= len(merged) && (isnil(T) || fresh(T)) && (forall k in 0..len(T) :: T[k] >= 1) && (hasTies <==> tied(T)) && (i == 0 <==> len(T) == 0)
+//@   loop 2 invariant rank1 - 1 <= i && i <= len(merged) && nx1 >= 0 && len(labels) == len(merged)
+//@   check @ret2 [equal-exact] len(T) == 1
+//@   check @ret4 [U-field] res.U == U1 && res.P == p
+//@   check @ret4 [exact-less]    ((!hasTies && n1 <= MannWhitneyExactLimit && n2 <= MannWhitneyExactLimit) || (hasTies && n1 <= MannWhitneyTiesExactLimit && n2 <= MannWhitneyTiesExactLimit)) && alt == LocationLess ==> p == UDist{n1, n2, T}.CDF(U1)
+//@   check @ret4 [exact-greater] ((!hasTies && n1 <= MannWhitneyExactLimit && n2 <= MannWhitneyExactLimit) || (hasTies && n1 <= MannWhitneyTiesExactLimit && n2 <= MannWhitneyTiesExactLimit)) && alt == LocationGreater ==> p == 1 - UDist{n1, n2, T}.CDF(U1 - 0.5)
+//@   check @ret4 [exact-differs] ((!hasTies && n1 <= MannWhitneyExactLimit && n2 <= MannWhitneyExactLimit) || (hasTies && n1 <= MannWhitneyTiesExactLimit && n2 <= MannWhitneyTiesExactLimit)) && alt == LocationDiffers ==> p == min(1, 2 * min(UDist{n1, n2, T}.CDF(U1), 1 - UDist{n1, n2, T}.CDF(U1 - 0.5)))
+//@   check @ret4 [approx-less]    !((!hasTies && n1 <= MannWhitneyExactLimit && n2 <= MannWhitneyExactLimit) || (hasTies && n1 <= MannWhitneyTiesExactLimit && n2 <= MannWhitneyTiesExactLimit)) && alt == LocationLess ==> p == ncdf(0, 1, (U1 - n1*n2/2.0 + 0.5) / mwsigma(n1, n2, tcsum(T, len(T))))
+//@   check @ret4 [approx-greater] !((!hasTies && n1 <= MannWhitneyExactLimit && n2 <= MannWhitneyExactLimit) || (hasTies && n1 <= MannWhitneyTiesExactLimit && n2 <= MannWhitneyTiesExactLimit)) && alt == LocationGreater ==> p == 1 - ncdf(0, 1, (U1 - n1*n2/2.0 - 0.5) / mwsigma(n1, n2, tcsum(T, len(T))))
+//@   check @ret4 [approx-differs] !((!hasTies && n1 <= MannWhitneyExactLimit && n2 <= MannWhitneyExactLimit) || (hasTies && n1 <= MannWhitneyTiesExactLimit && n2 <= MannWhitneyTiesExactLimit)) && alt == LocationDiffers && U1 != n1*n2/2.0 ==> p == 2 * min(ncdf(0, 1, (abs(U1 - n1*n2/2.0) - 0.5) / mwsigma(n1, n2, tcsum(T, len(T)))), 1 - ncdf(0, 1, (abs(U1 - n1*n2/2.0) - 0.5) / mwsigma(n1, n2, tcsum(T, len(T)))))
+//@   check @ret4 [approx-range] !((!hasTies && n1 <= MannWhitneyExactLimit && n2 <= MannWhitneyExactLimit) || (hasTies && n1 <= MannWhitneyTiesExactLimit && n2 <= MannWhitneyTiesExactLimit)) ==> 0 <= p && p <= 1
+//@   assigns nothing
